@@ -320,6 +320,8 @@ def run(
     extra: list[str] | None = None,
     dfs_queue: bool = False,
     java_opts: list[str] | None = None,
+    mc_defs: dict[str, str] | None = None,
+    dump_dot: str | None = None,
 ) -> TlcResult:
   """Runs TLC on spec_dir/module.tla with config text or file name `cfg`."""
   spec_dir = spec_dir if os.path.isabs(spec_dir) else os.path.join(SPEC_ROOT, spec_dir)
@@ -331,9 +333,21 @@ def run(
         f.write(cfg)
     else:
       cfg_path = cfg if os.path.isabs(cfg) else os.path.join(spec_dir, cfg)
+    target = os.path.join(spec_dir, module + '.tla')
+    if mc_defs:
+      # wrapper module in scratch: EXTENDS <module>, one definition per entry (for function-valued constants)
+      mc_name = f'MC_{module}'
+      with open(os.path.join(scratch, mc_name + '.tla'), 'w') as f:
+        f.write(f'---- MODULE {mc_name} ----\nEXTENDS {module}\n')
+        for k, v in mc_defs.items():
+          f.write(f'{k} == {v}\n')
+        f.write('====\n')
+      target = os.path.join(scratch, mc_name + '.tla')
     jopts = ['-XX:+UseSerialGC', '-Xmx12g', '-Xss16m']  # ParallelGC/G1 burn >10x sys time in this VM
     if dfs_queue:
       jopts.append('-Dtlc2.tool.queue.IStateQueue=StateDeque')
+    if mc_defs:
+      jopts.append(f'-DTLA-Library={spec_dir}')
     jopts += java_opts or []
     cmd = ['java', *jopts, '-cp', f'{TLA_JAR}:{TLA_DEPS}', 'tlc2.TLC',
            '-workers', str(workers), '-metadir', os.path.join(scratch, 'meta'),
@@ -348,8 +362,10 @@ def run(
       cmd += ['-seed', str(seed)]
     if not deadlock:
       cmd += ['-deadlock']
+    if dump_dot:
+      cmd += ['-dump', 'dot,actionlabels', dump_dot]
     cmd += extra or []
-    cmd += [os.path.join(spec_dir, module + '.tla')]
+    cmd += [target]
     e = dict(os.environ)
     e.update(env or {})
     t0 = time.time()
